@@ -5,6 +5,17 @@ from .. import udcommon
 def run(ctx):
     ctx.rule = udcommon.RULE
     udcommon.run(ctx, "C10-", 60 if ctx.quick else 600)
+    # "one row per sequence, in input order" for a long input whose rows reach the writer far out of order: one record held back
+    # (gate hook) until 1,300 later ones have been taken - the output must be the single-threaded bytes
+    from .. import kernel
+    late = 1301
+    vecs = []
+    for k in ([5, 1100] if ctx.quick else [0, 5, 700, 1100, 1299]):
+        vecs.append({"id": "late-udlist-%d-of-%d" % (k, late), "fam": "pipe", "sig": "udlist", "cmd": "udlist", "N": late, "T": 4, "mode": "gate",
+                     "order": [i for i in range(late) if i != k] + [k]})
+    obs = kernel.run_vectors(ctx, "pipe", vecs, tag="late")
+    rows, _, _ = kernel.validate_obs(ctx, "ObsC12", "ObsC12.cfg", obs, tag="late")
+    kernel.account(ctx, rows, lambda r: r["obs"].get("reordered", 0) > 0)
     ctx.assumptions = ["references of the topranking vectors are A/C/G/T (as the statement says); updown list is also run on IUPAC references",
                        "--threshold-pair values are multiples of 1/4 (exact in float32); either --dist-all or all three per-bin limits are given",
                        "C09 compares the four outputs byte for byte in the harness; agreement of the common output with the spec is C08's verdict"]
